@@ -22,7 +22,8 @@ RULE = ('States = RDMs objects reachable from the initial objects (n_rdm in {1,3
         'alphabet with state-derived argument menus; de-duplicated by (rid order, cid order, NaN mask, '
         'container and element type of every descriptor). One evaluation = one transition executed on '
         'the real object and judged by the invariant + list-of-ids model. Non-trivial = every '
-        'transition (each runs a library operation); distinct = distinct operation history.')
+        'transition (each runs a library operation); distinct = distinct operation history.'
+        " Also: every to_df descriptor column against the object's own descriptors in every state; receiver dtype x appended dtype x value kind for append / concat / subsample_pattern / reorder / get_matrices.")
 ASSUMPTIONS = ['state abstraction: the key holds everything an operation reads except numeric values, which '
                'are a function of the key by the invariant asserted before insertion',
                'inadmissible calls (empty selections, out-of-range indices, concat in different condition '
